@@ -242,3 +242,66 @@ func VerifC16Callbacks() {
 		}
 	}
 }
+
+// options of the resuming call reach the nodes restarted from the checkpoint (flat, nested, rerun)
+func VerifC16Resume() {
+	ctx := context.Background()
+	vcfg("fifo", 1)
+	var rec []c16Recv
+	lamA := func(key string) *Lambda {
+		return InvokableLambdaWithOption(func(ctx context.Context, in map[string]any, opts ...c16OptA) (map[string]any, error) {
+			for _, o := range opts {
+				rec = append(rec, c16Recv{key, o.id, o.val})
+			}
+			return in, nil
+		})
+	}
+	nested := vchoose("nested", 2) == 1
+	store := &vStore{m: map[string][]byte{}}
+	g := NewGraph[map[string]any, map[string]any]()
+	_ = g.AddLambdaNode("L0", lamA("L0"))
+	_ = g.AddEdge(START, "L0")
+	target := "L1"
+	if nested {
+		sub := NewGraph[map[string]any, map[string]any]()
+		_ = sub.AddLambdaNode("L2", lamA("G/L2"))
+		_ = sub.AddEdge(START, "L2")
+		_ = sub.AddEdge("L2", END)
+		_ = g.AddGraphNode("G", sub, WithGraphCompileOptions(WithInterruptBeforeNodes([]string{"L2"})))
+		_ = g.AddEdge("L0", "G")
+		_ = g.AddEdge("G", END)
+		target = "G/L2"
+	} else {
+		_ = g.AddLambdaNode("L1", lamA("L1"))
+		_ = g.AddEdge("L0", "L1")
+		_ = g.AddEdge("L1", END)
+	}
+	var copts []GraphCompileOption
+	copts = append(copts, WithCheckPointStore(store))
+	if !nested {
+		copts = append(copts, WithInterruptBeforeNodes([]string{"L1"}))
+	}
+	r, err := g.Compile(ctx, copts...)
+	vassert(err == nil, "graph compiles")
+	v1, v2 := vsymInt("v1"), vsymInt("v2")
+	global := WithLambdaOption(c16OptA{1, v1})
+	var des Option
+	if nested {
+		des = WithLambdaOption(c16OptA{2, v2}).DesignateNodeWithPath(NewNodePath("G", "L2"))
+	} else {
+		des = WithLambdaOption(c16OptA{2, v2}).DesignateNode("L1")
+	}
+	in := map[string]any{"in": vsymInt("x")}
+	_, e1 := r.Invoke(ctx, in, WithCheckPointID("cp"), global, des)
+	_, isInt := ExtractInterruptInfo(e1)
+	vassert(isInt, "first call is interrupted before the target node")
+	n0 := len(rec)
+	_, e2 := r.Invoke(ctx, in, WithCheckPointID("cp"), global, des)
+	vassert(e2 == nil, "resumed call completes")
+	var got []c16Recv
+	for _, x := range rec[n0:] {
+		vassert(x.node == target, "after resume only the restarted node runs")
+		got = append(got, x)
+	}
+	vassert(len(got) == 2 && got[0].id == 1 && got[0].val == v1 && got[1].id == 2 && got[1].val == v2, "a node restarted from the checkpoint receives the global and the designated option of the resuming call")
+}
